@@ -85,6 +85,14 @@ theorem parcor_error_iff (d : K) (num : List K) :
   unfold parcorCoded
   exact ploop_raised_iff _ _ _ _
 
+/-- in the words of the property: `ParCorError` iff some yielded `k` is `1` or `−1` -/
+theorem parcor_error_iff_unit (d : K) (num : List K) :
+    (parcorCoded d num).2 = true ↔ ∃ k ∈ (parcorCoded d num).1, k = 1 ∨ k = -1 := by
+  rw [parcor_error_iff]
+  constructor
+  · rintro ⟨k, hk, h⟩; exact ⟨k, hk, mul_self_eq_one_iff.mp h⟩
+  · rintro ⟨k, hk, h⟩; exact ⟨k, hk, mul_self_eq_one_iff.mpr h⟩
+
 theorem parcor_error_iff_spec (f : List K) :
     (parcorSpec f).2 = true ↔ ∃ k ∈ (parcorSpec f).1, k * k = 1 := by
   unfold parcorSpec
@@ -250,7 +258,34 @@ theorem parcor_levinson (r : List K) (order : Nat) (a ks : List K) (e : K)
   rw [(levinson_error r order a ks e h).1]
   exact stepdown_stepup ks h1 hlast
 
+/-- **C11.4e (defect D3 made explicit, order 1)** over any ordered field the code answers
+`|a₁| < 1` for the denominator `a₀ + a₁ z⁻¹`, where the property wants `|a₁ / a₀| < 1`. -/
+theorem d3_order1 {L : Type} [Field L] [LinearOrder L] [IsStrictOrderedRing L]
+    (a0 a1 : L) (h1 : a1 ≠ 0) : parcorStableCoded [a0, a1] = absLt1 a1 := by
+  rw [parcorStableCoded_eq]
+  have hs : stripZeros [a0, a1] = [a0, a1] := by simp [stripZeros, h1]
+  have hk : lget 1 (wOfList 1 [a0, a1]) ((1 : Nat) : Int) = a1 := by
+    rw [(rep_wOfList 1 [a0, a1] (by simp)).2, emb_nat]; rfl
+  unfold parcorCoded
+  rw [hs]
+  simp only [normDen, if_true, List.length_cons, List.length_nil, Nat.add_sub_cancel, zero_add]
+  rw [ploop_succ]
+  unfold pstep
+  simp only [hk]
+  by_cases hz : (1 : L) - a1 * a1 = 0
+  · rw [if_pos hz]
+    simp only [Bool.not_true, Bool.false_and]
+    symm
+    rw [Bool.eq_false_iff]
+    intro h
+    rw [absLt1_iff] at h
+    simp only [Bool.and_eq_true, decide_eq_true_eq] at h
+    nlinarith
+  · rw [if_neg hz]
+    simp [ploop]
+
 /-! ### non-vacuity -/
+example : parcorStableCoded ([2, -1] : List Rat) = false := by decide +kernel
 example : polesInside ([1/2, -1] : List Rat) [] = false := by decide +kernel
 example : fromPoles (2 : Rat) [1/2, -1] [(3/5, 4/5)] = [2, -7/5, -1/5, 11/5, -1] := by decide +kernel
 example : levinson ([12, 6, 0, -3] : List Rat) 3 = some ([1, -5/8, 1/4, 1/8], 63/8, [-1/2, 1/3, 1/8]) := by
